@@ -60,6 +60,7 @@ pub fn run(op: &str, a: &[String]) -> Vec<String> {
                 "empty" => vec![],
                 "many" => vec![other(1), other(2), own, other(3)],
                 "many_other" => vec![other(1), other(2), other(3)],
+                "inter" => vec![],
                 // near misses: one bit off at either end, one byte off in the middle
                 "near_last" | "near_first" | "near_mid" => {
                     let mut h: [u8; 32] = *own.as_ref();
@@ -72,10 +73,18 @@ pub fn run(op: &str, a: &[String]) -> Vec<String> {
                 }
                 _ => panic!("hashes"),
             };
+            // `inter`: the pinned hash is that of another certificate, which the server presents as
+            // a non-leaf member of its chain (pinning speaks of the leaf only)
+            let other_der = if a[4] == "inter" { Some(gen_cert("p256", nb, na)) } else { None };
+            let hashes = match &other_der {
+                Some(o) => vec![Certificate::from_der(o.to_vec()).map(|c| c.hash()).unwrap_or(other(9))],
+                None => hashes,
+            };
+            let inter: Vec<rustls_pki_types::CertificateDer> = other_der.into_iter().collect();
             let v = ServerHashVerification::new(hashes);
             let r = v.verify_server_cert(
                 &der,
-                &[],
+                &inter,
                 &rustls_pki_types::ServerName::try_from("localhost").unwrap(),
                 &[],
                 rustls_pki_types::UnixTime::since_unix_epoch(Duration::from_secs(now)),
@@ -296,11 +305,11 @@ pub fn generate(prop: &str, thorough: bool, rng: &mut Rng, emit: &mut Emit) {
                     nows.sort();
                     nows.dedup();
                     for now in nows {
-                        for hs in ["match", "other", "empty", "many", "many_other", "near_last", "near_first", "near_mid"] {
+                        for hs in ["match", "other", "empty", "many", "many_other", "near_last", "near_first", "near_mid", "inter"] {
                             if alg != "p256" && !(hs == "match" || hs == "empty") {
                                 continue;
                             }
-                            if !thorough && (hs.starts_with("many") || hs.starts_with("near")) && len != 14 * day {
+                            if !thorough && (hs.starts_with("many") || hs.starts_with("near") || hs == "inter") && len != 14 * day {
                                 continue;
                             }
                             emit("pin.verify", vec![s(alg), s(nb), s(na), s(now), s(hs)]);
